@@ -232,13 +232,24 @@ def sensBlock (numS : Nat) (w : Mat α) (sens : Mat α) (i : Nat) : Mat α :=
 def sensToJtj (n numS : Nat) (w sens : Mat α) : Mat α :=
   fun a b => sumTo n (fun i => matMul numS (transpose (sensBlock numS w sens i)) (sensBlock numS w sens i) a b)
 
-/-- `out = zeros(_); out[idx] = v` for a list of distinct indices: position `q` of `v` lands at `idx[q]` -/
-def scatter (idx : List Nat) (v : Vec α) : Vec α :=
-  fun j => let q := idx.idxOf j; if q < idx.length then v q else 0
+/-- `out = zeros(_); np.add.at(out, idx, v)`: position `q` of `v` is ADDED at `idx[q]`; an index that occurs several
+times in `idx` receives the sum of its positions (unbuffered accumulation).  Since `fix:` 9e5845f this is what
+`hessian` does with `_stateIndex` (a state observed more than once, `state_name=['I','I']`). -/
+def scatter : List Nat → Vec α → Vec α
+  | [], _ => fun _ => 0
+  | x :: L, v => fun j => (if j = x then v 0 else 0) + scatter L (fun q => v (q+1)) j
 
-/-- the vector `E` of `hessian`: `E = zeros(nS); E[stateIndex] += diff_loss[i]*weight[i]`
-(since `fix:` 0f0d14a; `d2(cost) = sum dl*w*d2(yhat) + 2*w^2*s's`) -/
-def hessE (stateIdx : List Nat) (dl w : Vec α) : Vec α := scatter stateIdx (fun q => 0 + dl q * w q)
+/-- AS FOUND (before `fix:` 9e5845f): `out = zeros(_); out[idx] += v` is numpy's buffered `out[idx] = out[idx] + v`:
+of several positions with the same index only the LAST one is kept.  Equal to `scatter` on lists without repetition;
+kept for `Pygom.C20.scatter_asFound_counterexample`. -/
+def scatterAsFound : List Nat → Vec α → Vec α
+  | [], _ => fun _ => 0
+  | x :: L, v => fun j => if j = x ∧ ¬ (x ∈ L) then 0 + v 0 else scatterAsFound L (fun q => v (q+1)) j
+
+/-- the vector `E` of `hessian`: `E = zeros(nS); np.add.at(E, stateIndex, diff_loss[i]*weight[i])`
+(sign and weight since `fix:` 0f0d14a, `d2(cost) = sum dl*w*d2(yhat) + 2*w^2*s's`; accumulation over repeated
+observed states since `fix:` 9e5845f) -/
+def hessE (stateIdx : List Nat) (dl w : Vec α) : Vec α := scatter stateIdx (fun q => dl q * w q)
 
 /-- the accumulation `H += kron(E, eye(nP)).dot(FF_i)` over the `n` observation times; `FF i` is
 `vecToMatFF` of row `i` of the integrated forward-forward block, `dl i` row `i` of `diff_loss`, `w i` of `_weight` -/
@@ -249,9 +260,15 @@ def hessianH (nS nP n : Nat) (stateIdx : List Nat) (dl w : Mat α) (FF : Nat →
 def hessian (nS nP n : Nat) (stateIdx paramIdx : List Nat) (dl w : Mat α) (FF : Nat → Mat α) (JTJ : Mat α) : Mat α :=
   fun a b => hessianH nS nP n stateIdx dl w FF (paramIdx.getD a 0) (paramIdx.getD b 0) + (1 + 1) * JTJ a b
 
+/-- AS FOUND between `fix:` 0f0d14a and `fix:` 9e5845f: right sign and weight, but `E[stateIndex] += …` (last of several
+equal indices wins).  Kept for `Pygom.C20.hessian_overwrite_asFound_counterexample` and for diagnostics. -/
+def hessianOverwrite (nS nP n : Nat) (stateIdx paramIdx : List Nat) (dl w : Mat α) (FF : Nat → Mat α) (JTJ : Mat α) : Mat α :=
+  fun a b => sumTo n (fun i => matMul (nS*nP) (kron nP nP (rowMat (scatterAsFound stateIdx (fun q => dl i q * w i q))) eye) (FF i)
+      (paramIdx.getD a 0) (paramIdx.getD b 0)) + (1 + 1) * JTJ a b
+
 /-- AS FOUND (before `fix:` 0f0d14a): `E[stateIndex] += -diff_loss[i]` - wrong sign, no weight.  Kept for
 `Pygom.C20.hessian_asFound_sign_counterexample` and for diagnostics. -/
-def hessEAsFound (stateIdx : List Nat) (dl : Vec α) : Vec α := scatter stateIdx (fun q => 0 + -(dl q))
+def hessEAsFound (stateIdx : List Nat) (dl : Vec α) : Vec α := scatterAsFound stateIdx (fun q => -(dl q))
 
 def hessianAsFound (nS nP n : Nat) (stateIdx paramIdx : List Nat) (dl : Mat α) (FF : Nat → Mat α) (JTJ : Mat α) : Mat α :=
   fun a b => sumTo n (fun i => matMul (nS*nP) (kron nP nP (rowMat (hessEAsFound stateIdx (dl i))) eye) (FF i)
